@@ -58,6 +58,7 @@ type Config struct {
 	HipGroups    int        `json:"hip_groups,omitempty"`     // >0: keys collide at the first level of the DEFAULT digester (see Callbacks.Groups)
 	LedgerAPI    bool       `json:"ledger_api,omitempty"`     // the storage reaches the registers through atree.LedgerBaseStorage
 	AllowF4      bool       `json:"allow_known_f4,omitempty"` // replay of known finding F4 only: do not exclude it by construction
+	AllowF6      bool       `json:"allow_known_f6,omitempty"` // replay of known finding F6 only: compare bytes across schedules although a map was transferred from the temporary address
 	KeepGlobals  bool       `json:"-"`                        // C16: globals were set once before the goroutines started
 }
 
